@@ -432,6 +432,20 @@ type Contract struct {
 	PathCap    int
 	Uses       []string // theory groups
 	GhostDecls []string
+	Fresh      []*FreshClause
+}
+
+type FreshClause struct {
+	Expr SExpr
+	When SExpr
+	Text string
+}
+
+type StateFn struct {
+	Name   string
+	Params []string
+	Result string
+	Reads  []string
 }
 
 type PredDef struct {
@@ -461,11 +475,12 @@ type SpecDB struct {
 	SMT       []string          // raw SMT prelude lines (axioms), in order
 	Consts    map[string]string // spec constants name -> expr text
 	Trusted   []string          // names of assumed contracts
+	StateFns  map[string]*StateFn
 }
 
 func NewSpecDB() *SpecDB {
 	return &SpecDB{Contracts: map[string]*Contract{}, Preds: map[string]*PredDef{}, Ghosts: map[string]*GhostDecl{},
-		SpecFns: map[string]*SpecFn{}, Consts: map[string]string{}}
+		SpecFns: map[string]*SpecFn{}, Consts: map[string]string{}, StateFns: map[string]*StateFn{}}
 }
 
 // splitTags strips a trailing "[C01 C02]" tag group.
@@ -644,6 +659,30 @@ func (db *SpecDB) LoadSpecFile(path, pkgPath string, trusted bool) error {
 			db.SpecFns[name] = &SpecFn{Name: name, Params: ps, Result: strings.TrimSpace(rest[k+1:])}
 		case "smt":
 			db.SMT = append(db.SMT, rest)
+		case "statefn":
+			// statefn name(Sort, ...) Sort reads Type.field, mem.Int, ...
+			ri := strings.Index(rest, " reads ")
+			if ri < 0 {
+				return fail(fmt.Errorf("statefn needs a reads list"))
+			}
+			head, reads := rest[:ri], rest[ri+len(" reads "):]
+			j := strings.Index(head, "(")
+			k := strings.LastIndex(head, ")")
+			if j < 0 || k < j {
+				return fail(fmt.Errorf("bad statefn"))
+			}
+			sf := &StateFn{Name: strings.TrimSpace(head[:j]), Result: strings.TrimSpace(head[k+1:])}
+			for _, p := range splitTopComma(head[j+1 : k]) {
+				if p = strings.TrimSpace(p); p != "" {
+					sf.Params = append(sf.Params, p)
+				}
+			}
+			for _, r := range strings.Split(reads, ",") {
+				if r = strings.TrimSpace(r); r != "" {
+					sf.Reads = append(sf.Reads, r)
+				}
+			}
+			db.StateFns[sf.Name] = sf
 		default:
 			if cur == nil {
 				return fail(fmt.Errorf("clause %q outside a func block", word))
@@ -880,6 +919,25 @@ func (c *Contract) addClause(word, label, rest, src string) error {
 				c.Pure[m] = true
 			}
 		}
+	case "fresh":
+		fc := &FreshClause{Text: rest}
+		ex, when := rest, ""
+		if i := strings.Index(rest, " when "); i >= 0 {
+			ex, when = rest[:i], rest[i+len(" when "):]
+		}
+		e, err := parseSpecExpr(strings.TrimSpace(ex))
+		if err != nil {
+			return err
+		}
+		fc.Expr = e
+		if when != "" {
+			w, err := parseSpecExpr(strings.TrimSpace(when))
+			if err != nil {
+				return err
+			}
+			fc.When = w
+		}
+		c.Fresh = append(c.Fresh, fc)
 	case "maypanic":
 		c.MayPanic = true
 	case "nosafety":
